@@ -148,7 +148,7 @@ def search(rep: C.Report, tier: str, broken):
                 if abs(cs2a - cs2b) < 1e-9 and math.isfinite(tn):
                     lhs = float(th.wHighT(tn)) * HC.gsq(xs) * xs * xs + float(th.pHighT(tn))
                     rhs_ = float(th.wHighT(Ts)) * HC.gsq(u) * u * u + float(th.pHighT(Ts))
-                    if abs(lhs - rhs_) > 1e-5 * (abs(lhs) + abs(rhs_)):
+                    if not abs(lhs - rhs_) <= 1e-05 * (abs(lhs) + abs(rhs_)):
                         rep.violation("momentum flux not continuous across the shock front for a constant-sound-speed EOS",
                                       dict(info, momentum_flux_ahead=lhs, momentum_flux_behind=rhs_), finding_key="C03:front-momentum")
                 kSW = 4 * K / (vw ** 3 * alN * wN)
